@@ -77,6 +77,10 @@ class Substitutor(SchemaVisitor[GenericSchema]):
         result = schema.__accept__(self._validator, value=value)
         if result.has_errors():
             raise make_substitution_error(result, self._formatter)
+        if schema.props.value is not Nil:
+            # already pinned and `value` is within its tolerance: re-pinning to `value` would
+            # shift the tolerance band and accept floats the original schema rejects
+            return schema.__class__(schema.props)
         return schema.__class__(schema.props.update(value=value))
 
     def visit_str(self, schema: StrSchema, *, value: Any = Nil, **kwargs: Any) -> StrSchema:
